@@ -287,6 +287,42 @@ pub fn structured(orig: &[u8], map: &ProofMap, rng: &mut Rng, digest: usize) -> 
                 out.push(Mutant { class: format!("table-rows-exchanged:{}", generic(&f.name)), bytes: b });
             }
         }
+        // coordinated edits: one row added to (removed from) every opened trace / constraint table at
+        // once, with and without the matching change of num_unique_queries
+        if let Some(nf) = field("num_unique_queries") {
+            let mut tables: Vec<&Field> = map.fields.iter().filter(|f| f.kind == Kind::Blob && f.name.ends_with(".values") && !f.name.starts_with("fri.")).collect();
+            tables.sort_by(|a, b| b.off.cmp(&a.off));
+            if nuq > 0 && tables.iter().all(|f| f.len > 0 && f.len % nuq == 0) {
+                for (what, add) in [("added", true), ("removed", false)] {
+                    for bump in [true, false] {
+                        for include_constraints in [true, false] {
+                            let mut b = orig.to_vec();
+                            for f in &tables {
+                                if !include_constraints && f.name.starts_with("constraint") {
+                                    continue;
+                                }
+                                let row = f.len / nuq;
+                                let end = f.off + f.len;
+                                if add {
+                                    b.splice(end..end, orig[end - row..end].to_vec());
+                                    fix_lengths(map, &mut b, f.off, row as isize);
+                                } else if nuq > 1 {
+                                    b.drain(end - row..end);
+                                    fix_lengths(map, &mut b, f.off, -(row as isize));
+                                }
+                            }
+                            if bump {
+                                b[nf.off] = if add { b[nf.off].wrapping_add(1) } else { b[nf.off].wrapping_sub(1) };
+                            }
+                            out.push(Mutant {
+                                class: format!("row-{what}-in-{}-tables({})", if include_constraints { "all" } else { "all-trace" }, if bump { "num_unique_queries adjusted" } else { "num_unique_queries kept" }),
+                                bytes: b,
+                            });
+                        }
+                    }
+                }
+            }
+        }
         // out-of-domain trace frame re-encoded with another frame size (1, 3, 4 rows per column), the
         // element count kept consistent with the frame-size byte; one column added / removed
         if let Some(f) = field("ood.trace_states") {
